@@ -61,6 +61,9 @@ STEPS = [
     ("cat", "c1", {"quantity_type": "time", "valid_units": ["s"], "min_value": "lo", "default_value": "d"}),
     ("cat", "c2", {"from_category": "depth", "max_value": "hi"}), ("cat", "c2", {"from_category": "depth", "min_value": "lo", "is_min_exclusive": True}),
     ("base", "length", "centimeters", "km"), ("base", "time", "seconds", "ss"), ("unit", "length", "meters", "mm", 1000),
+    ("cat", "c1", {"quantity_type": "depth", "default_unit": "m"}), ("cat", "c1", {"quantity_type": "depth"}),
+    ("cat", "length", {"quantity_type": "length", "override": True, "min_value": "lo", "default_value": "d"}),
+    ("cat", "length", {"quantity_type": "time", "override": True}),
 ]
 POSC_STEPS = [
     ("cat", "c1", {"quantity_type": "volume flow rate", "default_unit": "1000ft3/d"}), ("cat", "c1", {"quantity_type": "volume flow rate", "valid_units": ["M(ft3)/d", "m3/s"]}),
@@ -312,6 +315,16 @@ def run(cfg, V):
     log = []
     for si in cfg["steps"]:
         step = steps[si]
+        # history: quantities are obtained through the unit alone and through (unit, category) BEFORE the step
+        from barril.units import ObtainQuantity
+
+        with pushed(db):
+            for u in ("m", "cm", "s"):
+                for c in (None, "length", "depth", "time"):
+                    try:
+                        ObtainQuantity(u, c) if c else ObtainQuantity(u)
+                    except Exception:  # noqa
+                        pass
         if step[0] == "cat":
             # history: the (category, unit) pairs are probed BEFORE the registration (a refusal may get memoised)
             for u in ("m", "cm", "s", "km"):
@@ -332,6 +345,17 @@ def run(cfg, V):
             commit()
         entry = {"accepted": acc, "exc": exc, "model_cond": cond, "same_snapshot": (snap_registry(db) == snap0) if not acc else None}
         entry["bad"] = wellformed(db, model, V)
+        # a quantity obtained now (by unit alone or with its category) is bound to the category definition the database reports now
+        with pushed(db):
+            for u in ("m", "cm", "s"):
+                c = db.GetDefaultCategory(u) if u in db.unit_to_unit_info else None
+                if c and db.IsValidCategory(c) and u in db.GetUnits(db.GetCategoryQuantityType(c)):
+                    try:
+                        q1, q2 = ObtainQuantity(u), ObtainQuantity(u, c)
+                        if q1.GetCategoryInfo() is not db.GetCategoryInfo(c) or q2.GetCategoryInfo() is not db.GetCategoryInfo(c) or q1.GetQuantityType() != db.GetCategoryQuantityType(c):
+                            entry["bad"].append("quantity for unit %s is bound to a stale definition of category %s" % (u, c))
+                    except Exception as e:  # noqa
+                        entry["bad"].append("ObtainQuantity(%s) fails: %s" % (u, type(e).__name__))
         if acc and step[0] == "cat":
             entry["bad"] += usable(db, [step[1]], V)
             i = db.GetCategoryInfo(step[1])
